@@ -18,7 +18,8 @@ func init() {
 			" for-in over a string binds Go's own range over the string (byte offsets); no err.Error() is applied to a value that may be a control-flow signal (signals keep their identity up to their consumer); every test against errNext / errExit sits in a rule driver." +
 			" The fuzzer's iteration cap applies only under Evaluator.fuzzing." +
 			" Each for-in binding is made in every iteration; a return statement carries a value exactly where the statement-end test answered false." +
-			" The statement parser stores into a statement node only what its own parser calls returned (no restructuring of parsed statements).",
+			" The statement parser stores into a statement node only what its own parser calls returned (no restructuring of parsed statements)." +
+			" The truthiness of an if condition is taken exactly once per execution.",
 		notDecided: "the parser's dangling-else attachment (inherent in the recursive descent: an else is consumed by the innermost if still open; not separately checked); element order of Go's range over slices / strings (language semantics).",
 	})
 }
